@@ -222,8 +222,43 @@ func runHist(c histCase, rep *batch.Report) batch.CaseResult {
 			}
 		}(g, perG[g])
 	}
+	// advisory storm: FinishJoin(stabilize=true) is the advisory any neighbour may send; it runs a
+	// stabilize round on the receiver that overlaps with the receiver's periodic rounds
+	stormStop := make(chan struct{})
+	var swg sync.WaitGroup
+	for sg := 0; sg < 3; sg++ {
+		swg.Add(1)
+		go func(sg int) {
+			defer swg.Done()
+			sr := rand.New(rand.NewSource(c.Seed + int64(sg)*7919))
+			for {
+				select {
+				case <-stormStop:
+					return
+				default:
+				}
+				hmu.Lock()
+				var m *ringlab.Member
+				if len(joined) > 0 {
+					m = joined[sr.Intn(len(joined))]
+				}
+				hmu.Unlock()
+				if m != nil && m.State() == chord.Active {
+					_ = m.Node.FinishJoin(true, false)
+				}
+				time.Sleep(time.Duration(sr.Intn(300)) * time.Microsecond)
+			}
+		}(sg)
+	}
 	done := make(chan struct{})
-	go func() { wg.Wait(); close(done) }()
+	go func() {
+		wg.Wait()
+		// keep the storm going for a moment after the last membership event, then stop it
+		time.Sleep(15 * time.Millisecond)
+		close(stormStop)
+		swg.Wait()
+		close(done)
+	}()
 	select {
 	case <-done:
 	case <-time.After(4 * time.Minute):
@@ -309,7 +344,7 @@ func main() {
 	child.Register("hists", runHists)
 	child.Main()
 	r := ev.Start("C02", "exploration")
-	r.SetRule("seeded histories: create + initial sequential joins, then join/leave events issued concurrently from 1-4 goroutines on real LocalNodes (direct and proxied wiring, random and clustered ids, seeded delays at the chord hook points); after the last event every live node must reach the sorted-ring pointer oracle (predecessor, successor list, 48 fingers) within K=6N+20 completed stabilize and fix-finger rounds; distinct+non-trivial = hash of the order in which membership hook events of different nodes interleaved, for histories in which at least one join or leave completed")
+	r.SetRule("seeded histories: create + initial sequential joins, then join/leave events issued concurrently from 1-4 goroutines on real LocalNodes while 3 goroutines send stabilize advisories to random members (overlapping stabilize rounds) (direct and proxied wiring, random and clustered ids, seeded delays at the chord hook points); after the last event every live node must reach the sorted-ring pointer oracle (predecessor, successor list, 48 fingers) within K=6N+20 completed stabilize and fix-finger rounds; distinct+non-trivial = hash of the order in which membership hook events of different nodes interleaved, for histories in which at least one join or leave completed")
 	r.Assume("membership is read from node state (a Leave may give up and the node stays a member)")
 	r.Assume("liveness restated as bounded progress: K=6N+20 rounds per live node, counted at the round-done hooks; the wall-clock watchdog only yields inconclusive")
 	rng := r.Rand("hists")
